@@ -167,3 +167,40 @@ mk indexof-flip-compare src/dict/elias_fano.rs "        if value > self.u {
         }" "        if self.u < value {
             return None;
         }"
+mk select9-min-as-if src/rank_sel/select9.rs "                let end_word_idx = end_bit_idx.div_ceil(u64::BITS as usize).min(num_words);" "                let end_word_idx = std::cmp::min(num_words, end_bit_idx.div_ceil(u64::BITS as usize));"
+mk efbuild-assert-eq src/dict/elias_fano.rs "        assert!(
+            self.count == self.n,
+            \"Only {} values out of {} have been pushed\",
+            self.count,
+            self.n
+        );" "        if self.count != self.n {
+            panic!(
+                \"Only {} values out of {} have been pushed\",
+                self.count, self.n
+            );
+        }"
+mk atomicfill-match-value src/bits/bit_vec.rs "            if value {
+                bits[full_words].fetch_or(mask, ordering);
+            } else {
+                bits[full_words].fetch_and(!mask, ordering);
+            }" "            match value {
+                true => bits[full_words].fetch_or(mask, ordering),
+                false => bits[full_words].fetch_and(!mask, ordering),
+            };"
+mk setatomic-value-le-mask src/bits/bit_field_vec.rs "        panic_if_out_of_bounds!(index, self.len);
+        panic_if_value!(value, self.mask, self.bit_width);
+        unsafe {
+            self.set_atomic_unchecked(index, value, order);" "        panic_if_out_of_bounds!(index, self.len);
+        if value > self.mask {
+            panic!(\"Value {} does not fit in {} bits\", value, self.bit_width);
+        }
+        unsafe {
+            self.set_atomic_unchecked(index, value, order);"
+mk apply-zero-width-while src/bits/bit_field_vec.rs "            for _ in 0..self.len() {
+                f(W::ZERO);
+            }" "            let mut left = self.len();
+            while left != 0 {
+                f(W::ZERO);
+                left -= 1;
+            }"
+mk mwhc-max-one-std src/func/shard_edge.rs "            self.seg_size = (((n as f64 * 1.23) / 3.).ceil() as usize).max(1);" "            self.seg_size = std::cmp::max(1, ((n as f64 * 1.23) / 3.).ceil() as usize);"
